@@ -16,6 +16,15 @@ Theorem C18_two_wrappers : forall init ops,
 Proof. intros init ops H. exact (spec_run_model ops _ _ (R_init init H)). Qed.
 Print Assumptions C18_two_wrappers.
 
+(* Reading of the two-wrapper rollback clause of the checker: a content accepted after a rollback of
+   wrapper w holds a quad exactly if the quad was present before w FIRST changed it in this transaction
+   (for quads w changed) or just before the rollback (for all others: the other wrapper's changes stay). *)
+Theorem C18_rollback_clause_reading : forall s w now s',
+  spec_step s (ARollback w) now = Good s' ->
+  NoDup now /\ forall q, q_mem q now = expect_after_rollback s w q.
+Proof. exact spec_step_rollback_reading. Qed.
+Print Assumptions C18_rollback_clause_reading.
+
 (* One wrapper, strong form: after rollback the store content IS the content
    at the beginning of the transaction; after commit it is the content reached. *)
 Theorem C18_rollback_restores_commit_keeps : forall init ops,
@@ -96,7 +105,9 @@ Print Assumptions C18_over_memory_refines.
 (* One wrapper over the Memory model, any initial content, any history: after every add /
    remove the Memory store holds what the operation prescribes, after commit what it held,
    after rollback EXACTLY what it held when the transaction began - in terms of the
-   store's own membership function mem_holds ([xsingle] spells this out). *)
+   store's own membership function mem_holds ([xsingle] spells this out).  The initial Memory state is
+   any state built from the empty store by adds ([mem_of S]); for an arbitrary state satisfying the
+   store invariant use C18_over_memory_refines. *)
 Theorem C18_over_memory_rollback_restores : forall S ops,
   NoDup S -> only_w0 ops = true ->
   xsingle mem mem_holds (mem_of S) (mem_of S) ops
